@@ -1093,3 +1093,141 @@ def Unambiguous (fx : Fixes) (sp : Spec) (st : State) (R : List (Answer × List 
   callOK fx sp R && (st.layout.isSome || firstCallOK fx sp R)
 
 end Coba.C15
+
+namespace Coba.C15
+
+/-! ### whole evaluations: predict, then learn with what predict returned (as SequentialCB does) -/
+
+/-- one evaluation history: for every interaction `predict(context, actions)` and then
+`learn(context, action, reward, probability, **kwargs)` with what predict returned.  `batchable = false`: the learner's
+`learn` raises on a batch (per-row fallback).  Returns per interaction the result and what the learner's learn was given. -/
+def runHistory (fx : Fixes) (L : Learner) (batchable : Bool) : State → List (Arg × PyVal) → Except Err (List (Result × List LearnCall))
+  | _, [] => pure []
+  | st, (a, rw) :: h => do
+    let (r, st') ← predict fx L st a
+    let lc ← learn batchable a r rw
+    let rest ← runHistory fx L batchable st' h
+    pure ((r, lc) :: rest)
+
+/-- what the learner's `learn` must be given for one batched interaction whose result has the view `v`:
+a learner that takes batches - one call with the kwargs as one column per key; otherwise one call per row with that
+row's context, action, reward, probability and kwargs (as a finite map: `kwargs_row_map`) -/
+def LearnMeets (batchable : Bool) (cs : List PyVal) (rw : PyVal) (r : Result) (v : BatchView) (lc : List LearnCall) : Prop :=
+  if batchable then
+    ∃ ref vs, r.kw = .dict ref v.keys vs ∧ allItems vs = some v.cols ∧ lc = [⟨.list .tmp cs, r.a, rw, r.p, v.keys, vs⟩]
+  else
+    lc.length = cs.length ∧
+    ∀ (j : Nat) (call : LearnCall), lc[j]? = some call →
+      cs[j]? = some call.ctx ∧ v.A[j]? = some call.action ∧ v.P[j]? = some call.prob ∧
+      (∃ R, rw.items = some R ∧ R[j]? = some call.reward) ∧
+      call.kwKeys = v.keys ∧ call.kwVals = v.cols.map (fun c => c.getD j .none)
+
+/-- the history delivers, interaction by interaction, what the learner meant (`wantSingle` / `wantBatch` on the argument
+the learner is given, with the generator state threaded through), and every learn gets the kwargs of its predict;
+a PMF that `CobaRandom.choicew` rejects ends the history with that error -/
+def HistDelivers (fx : Fixes) (sp : Spec) (pol : Policy) :
+    State → List (Arg × PyVal) → Except Err (List (Result × List LearnCall)) → Prop
+  | _, [], x => x = .ok []
+  | st, (a, rw) :: h, x =>
+    match (prepare fx st a).2 with
+    | .single c gs =>
+      match wantSingle sp (prepare fx st a).1.rng (pol c gs) gs with
+      | .error e => x = .error e
+      | .ok (r, s') =>
+        ∃ rest, HistDelivers fx sp pol (stAfter sp false (prepare fx st a).1 s') h rest ∧
+          x = rest.map (fun l => (r, [⟨c, r.a, rw, r.p, (if sp.kw then (pol c gs).kwKeys else []), (if sp.kw then (pol c gs).kwVals else [])⟩]) :: l)
+    | .batch cs grows =>
+      match wantBatch sp (prepare fx st a).1.rng (rowsOf pol cs grows) with
+      | .error e => x = .error e
+      | .ok (v, s') =>
+        ∃ r lc rest, r.view = some v ∧ LearnMeets (sp.layout != .single) cs rw r v lc ∧
+          HistDelivers fx sp pol (stAfter sp true (prepare fx st a).1 s') h rest ∧
+          x = rest.map (fun l => (r, lc) :: l)
+
+/-- the side conditions of a history, interaction by interaction on the argument the learner is given (`prepare`: the
+float copies, or the cached ones when the offered actions `==` the previous ones): every interaction is batched (or none is),
+shaped like a batch with one reward per row, and its answers are `Unambiguous` in the state the SafeLearner is in
+(first interaction: detection; later ones: the memo) -/
+def histOK (fx : Fixes) (sp : Spec) (pol : Policy) (batched : Bool) : State → List (Arg × PyVal) → Bool
+  | _, [] => true
+  | st, (a, rw) :: h =>
+    (match (prepare fx st a).2 with
+     | .single c gs =>
+       !batched && ((prepare fx st a).1.layout.isSome || firstRowOK fx sp (pol c gs) gs)
+     | .batch cs grows =>
+       batched && cs.length == grows.length && !grows.isEmpty &&
+         (match rw.items with | some R => R.length == cs.length | Option.none => false) &&
+         Unambiguous fx sp (prepare fx st a).1 (rowsOf pol cs grows)) &&
+    histOK fx sp pol batched { (prepare fx st a).1 with layout := some .not } h
+
+end Coba.C15
+
+namespace Coba.C15
+
+/-! ### `SafeLearner.score` -/
+
+/-- the arguments of `score(context, actions, action)` (the offered actions themselves: no float copies here) -/
+inductive SArg
+  | single (ctx : PyVal) (actions : List PyVal) (action : PyVal)
+  | batch (ctxs : List PyVal) (actions : List (List PyVal)) (acts : List PyVal)
+deriving Repr
+
+/-- a learner's `score`: a function of what it is given; `.error` = it raised -/
+abbrev Scorer := SArg → Except Err PyVal
+
+/-- `_method2` for score: one call per row, `zip(context, actions, action)` -/
+def scorePerRow (S : Scorer) : List PyVal → List (List PyVal) → List PyVal → Except Err (List PyVal)
+  | c :: cs, a :: as, x :: xs => do
+    let p ← S (.single c a x)
+    let ps ← scorePerRow S cs as xs
+    pure (p :: ps)
+  | _, _, _ => pure []
+
+def scoreMethod2 (S : Scorer) (cs : List PyVal) (rows : List (List PyVal)) (acts : List PyVal) : Except Err PyVal := do
+  let ps ← scorePerRow S cs rows acts
+  if ps.isEmpty then .error .coba else pure (.list .tmp ps)
+
+/-- `SafeLearner.score`: `_safe_call('score', learner.score, (context, actions, action))` with its own memo;
+`S = none`: the learner has no `score` (AttributeError → CobaException).  Returns the value and the memo afterwards. -/
+def score (fx : Fixes) (S : Option Scorer) (method : Option Nat) (arg : SArg) : Except Err (PyVal × Nat) :=
+  match S with
+  | Option.none => .error .coba
+  | some S =>
+    match arg with
+    | .single .. =>
+      match method with
+      | some 2 => .error .other
+      | _ => do let p ← S arg; pure (p, 1)
+    | .batch cs rows acts =>
+      match method with
+      | some 1 => do let p ← S arg; pure (p, 1)
+      | some _ => do let p ← scoreMethod2 S cs rows acts; pure (p, 2)
+      | Option.none =>
+        let n := cs.length
+        match S arg with
+        | .ok out =>
+          if validOut fx out n then .ok (out, 1)
+          else match scoreMethod2 S cs rows acts with
+            | .ok out2 => if validOut fx out2 n then .ok (out2, 2) else .error .coba
+            | .error e => .error e
+        | .error _ =>
+          match scoreMethod2 S cs rows acts with
+          | .ok out2 => if validOut fx out2 n then .ok (out2, 2) else .error .coba
+          | .error e => .error e
+
+/-- the score a learner with policy `pol` gives an action: the probability it states for the action it names, 0 for
+any other action -/
+def scoreOf (pol : Policy) (c : PyVal) (as : List PyVal) (x : PyVal) : PyVal :=
+  let ans := pol c as
+  if pyEq x (ans.action as) then ans.p else .flt (.lrn 0) 0
+
+def scoresOf (pol : Policy) : List PyVal → List (List PyVal) → List PyVal → List PyVal
+  | c :: cs, a :: as, x :: xs => scoreOf pol c a x :: scoresOf pol cs as xs
+  | _, _, _ => []
+
+/-- the scripted learner's `score`: per-row values in a sequence for a batch; `batchable = false`: raises on a batch -/
+def scriptedScore (pol : Policy) (batchable : Bool) (tup : Bool) : Scorer
+  | .single c as x => .ok (scoreOf pol c as x)
+  | .batch cs rows acts => if batchable then .ok (mkSeq tup (scoresOf pol cs rows acts)) else .error .learner
+
+end Coba.C15
